@@ -102,6 +102,16 @@ func widthMembers(n int) []widthPattern {
 		func() *sigen.T { return sigen.Tu(sigen.A('i'), sigen.A('s')) },
 		func() *sigen.T { return sigen.St("Bb", []string{"k", "l"}, sigen.A('i'), sigen.A('s')) },
 	}
+	// every member a composite of one kind: a signature with MANY lists, maps,
+	// tuples, plain structs or template-named structs at one level (a parser
+	// that counts brackets, names or open constructs per signature shows here)
+	out = append(out,
+		widthPattern{"all-lists", rep(func(int) *sigen.T { return sigen.L(sigen.A('i')) }), false, false},
+		widthPattern{"all-maps", rep(func(int) *sigen.T { return sigen.M(sigen.A('s'), sigen.A('i')) }), false, false},
+		widthPattern{"all-tuples", rep(func(int) *sigen.T { return sigen.Tu(sigen.A('i')) }), false, false},
+		widthPattern{"all-structs", rep(func(k int) *sigen.T { return sigen.St(fmt.Sprintf("S%d", k), []string{"a"}, sigen.A('i')) }), false, false},
+		widthPattern{"all-template-structs", rep(func(k int) *sigen.T { return sigen.St(fmt.Sprintf("List<t%d>", k), []string{"a"}, sigen.A('i')) }), false, false},
+	)
 	pos := []int{0}
 	if n/2 != 0 {
 		pos = append(pos, n/2)
